@@ -119,8 +119,11 @@ type Gen struct {
 	// ZeroIDs: some repositories have no numeric id (plain zoekt-index / zoekt-git-index
 	// without a repoid, old shards): ID 0.
 	ZeroIDs bool
-	prev    []*Repo
-	seq     int
+	// CollideIDs: with Tenants > 1, a repository may get the numeric id of an earlier
+	// repository of another tenant (ids are only unique per tenant in such an index).
+	CollideIDs bool
+	prev       []*Repo
+	seq        int
 }
 
 func NewGen(r *rand.Rand) *Gen {
@@ -298,6 +301,11 @@ func (g *Gen) Repo(idx int) *Repo {
 					r.Name, r.TenantID = o.Name, cand
 					break
 				}
+			}
+		}
+		if g.CollideIDs && g.Tenants > 1 && len(g.prev) > 0 && g.R.IntN(3) == 0 {
+			if o := g.prev[g.R.IntN(len(g.prev))]; o.TenantID != r.TenantID {
+				r.ID = o.ID
 			}
 		}
 		g.prev = append(g.prev, r)
